@@ -1,5 +1,6 @@
 """C16 - validation always terminates and a clean verdict is never caused by interruption.
 
+MC   spec/HealerCancel.tla: ArchiveHealer.Do and its heal goroutine under cancellation at any moment: Do returns.
 MC   spec/Validator.tla: the goroutine protocol of ValidatorContext.Validate (main, worker, consumer goroutine,
      channels fileIndices / workerErrs(1) / consumerErrs(1) / cancelled / wounds(K), environment Cancel), one action
      per channel operation; swept over the product of its parameters in ONE run (0..3 files x every damage pattern,
@@ -7,9 +8,10 @@ MC   spec/Validator.tla: the goroutine protocol of ValidatorContext.Validate (ma
      cancellation allowed or not): no deadlock, <>returned and <>[]all goroutines done under weak fairness, a nil
      return of fail-fast validation implies nothing was damaged.
 TV   the REAL Validate with hooks (-tags verif): (a) outcome level - damage patterns (incl. > 1024 wounds, damage only
-     in the last file), consumers (fail-fast, wounds writer, printer, failing writer), cancellation instants chosen
+     in the last file), consumers (fail-fast, wounds writer, printer, failing writer, archive healer), cancellation instants chosen
      through the hooks (before start, when main is about to dispatch file i, when the worker finished file i, after
-     the last dispatch, asynchronous), seeded jitter, GOMAXPROCS 1..16: returns within the deadline, no goroutine
+     the last dispatch, when the worker is about to validate file i, while the healer handles the wound of the last
+     damaged file, asynchronous), seeded jitter, GOMAXPROCS 1..16: returns within the deadline, no goroutine
      left, nil only if the directory matched; (b) conformance - per-goroutine logs of free runs are checked against
      Validator.tla (each role's log in program order, any interleaving, silent unlogged actions).
 """
@@ -43,6 +45,19 @@ def run(tier):
             trans += r.generated
             mc.append({"cfg": cfg, **r.summary()})
             vlib.log("[mc] %s: %d distinct, %d generated, %.1fs (safety + liveness under weak fairness)" % (cfg, r.distinct, r.generated, r.wall))
+        # the healing consumer's own protocol (Do + heal goroutine) under cancellation
+        for nw in ((2, 3) if tier == "quick" else (2, 3, 5, 8)):
+            r = vlib.run_tlc("HealerCancel", "MC_HealerCancel.cfg", timeout=600, heap="4g", defines={"NW": str(nw)})
+            if not vlib.require_clean(r, "MC HealerCancel"):
+                raise vlib.Inconclusive("MC HealerCancel NW=%d: %s violated in the model\n%s" % (nw, r.violated, r.out[-2000:]))
+            states += r.distinct
+            trans += r.generated
+            mc.append({"cfg": "MC_HealerCancel.cfg", "defines": {"NW": nw}, **r.summary()})
+        r0 = vlib.run_tlc("HealerCancel", "MC_HealerCancel.cfg", timeout=600, heap="4g", defines={"Repaired": "FALSE"})
+        if r0.error or r0.violated != "NoWedge":
+            raise vlib.Inconclusive("MC HealerCancel with Repaired=FALSE should wedge, got %s %s" % (r0.violated, r0.error))
+        mc.append({"cfg": "MC_HealerCancel.cfg", "defines": {"Repaired": "FALSE"}, "expected_violation": "NoWedge", **r0.summary()})
+        vlib.log("[mc] HealerCancel: Do always returns (and wedges in the model of the code as found)")
         run.coverage.update({"states": states, "transitions": trans, "mc_runs": mc})
 
         # (a) outcomes
